@@ -3,6 +3,8 @@ import os, re, json, subprocess, hashlib, time, shutil
 
 VERUS = shutil.which('verus') or '/opt/veriftools/verus/verus'
 
+LABEL_RE = re.compile(r'/\*#([A-Za-z0-9_.:<> ,&\'\[\]-]+?)\*/')
+
 # messages that mean "the solver could not discharge this obligation" (a failed obligation)
 FAIL_PATTERNS = [
     (r'postcondition not satisfied', 'postcondition'),
@@ -60,7 +62,11 @@ def run(gen_path, modules, rlimit=30, threads=16, seed=None, cache_dir=None, ext
         except Exception:
             continue
         if d.get('level') == 'error' and not d.get('message', '').startswith('aborting due to'):
-            diags.append({'message': d.get('message', ''),
+            labs = []
+            for sp in d.get('spans', []):
+                for x in sp.get('text', []):
+                    labs += LABEL_RE.findall(x['text'])
+            diags.append({'message': d.get('message', ''), 'labels': list(dict.fromkeys(labs)),
                           'spans': [{'line_start': s['line_start'], 'line_end': s['line_end'], 'is_primary': s['is_primary'],
                                      'label': s.get('label'), 'text': [x['text'] for x in s.get('text', [])][:6]} for s in d.get('spans', [])],
                           'rendered': d.get('rendered', '')[:4000]})
@@ -93,4 +99,3 @@ def classify(msg):
         if re.search(pat, msg): return ('failed', kind)
     return ('undecided', 'front-end')
 
-LABEL_RE = re.compile(r'/\*#([A-Za-z0-9_.:<> ,&\'\[\]-]+?)\*/')
